@@ -149,7 +149,10 @@ func TestC13(t *testing.T) {
 	run := ev.NewRun("C13", "model_checking")
 	run.Assumptions = []string{"SQLite metadata store", "one bucket, one key, bodies a/b", "1 s of virtual time between operations so that a changed timestamp is visible"}
 	// the rich alphabet (appends, multipart, copies, conditional puts) first: shallow but wide
-	r := &sx.Search{Run: run, TestRun: "^TestWorker$", Seeds: versioningSeeds, Stacks: []string{world.StackNamed}, Spec: sx.SpecByName("C13rich"), Depth: 2}
+	// plus: three versions built by appends that repeat a chunk (one deduplicated part referenced by several versions)
+	richSeeds := append(append([][]sx.Op{}, versioningSeeds...), []sx.Op{{Kind: "CreateBucket", B: "bka"}, {Kind: "PutVersioning", B: "bka", Opt: map[string]string{"status": "Enabled"}},
+		{Kind: "Append", B: "bka", K: "k1", Body: "x"}, {Kind: "Append", B: "bka", K: "k1", Body: "x"}, {Kind: "Append", B: "bka", K: "k1", Body: "y"}})
+	r := &sx.Search{Run: run, TestRun: "^TestWorker$", Seeds: richSeeds, Stacks: []string{world.StackNamed}, Spec: sx.SpecByName("C13rich"), Depth: 2}
 	if !quick() {
 		r.Depth = 4
 	}
